@@ -9,7 +9,6 @@ volume band and component band implied by the bisection tolerance, located by bi
 import itertools
 import numpy as np
 from pmc.refs import oc
-from pmc.engine.tol import alg_err, q, mag
 
 PROPERTY = 'C17'
 RULE = ("lattice: variable layouts (one array n=1,2,3,6 passed bare or in a list; two/three arrays; array + length-1 "
@@ -201,7 +200,9 @@ def admissible(case):
 
 
 def run_once(case, tol, stop):
-    """One minimize_oc run.  Returns (designs as list of per-signal lists, maxvol_eff, exception or None)."""
+    """One minimize_oc run on fresh objects.  Returns (designs: per logged response the list of the variable
+    signals' states, plus the final states if they differ from the last logged ones; effective maxvol; the exception
+    minimize_oc raised or None; number of responses)."""
     import pymoto as pym
     sizes, how, n, c, xmin, xmax, bkw, x0, maxvol = problem(case)
     offs = np.concatenate([[0], np.cumsum(sizes)]).astype(int)
@@ -317,7 +318,8 @@ def judge_run(case, tol, stop):
                      + ('' if inband else '/offband'))
             continue
         if not band['root_in_bracket']:
-            why = 'multiplier_root_above_l2init' if band['root_above_bracket'] else 'zero_gradient_variable_blocks_volume'
+            why = ('multiplier_root_above_l2init' if band['root_above_bracket']
+                   else 'zero_gradient_variable_blocks_volume')
             tags.add(why)
             obs.append(why)
             continue
